@@ -146,6 +146,14 @@ class Flow(object):
             pscope = self.scope.parent
             if pscope:
                 snames = pscope.names
+                if self.scope.globals and not isinstance(self.scope, SourceScope):
+                    # names declared global skip the enclosing functions
+                    tnames = self.scope.top.names
+                    snames = {n: v for n, v in iteritems(snames)
+                              if n not in self.scope.globals}
+                    snames.update((n, tnames[n]) for n in self.scope.globals
+                                  if n in tnames)
+
                 if isinstance(self.scope, ClassScope):
                     return MergedDict(snames)
                 else:
